@@ -366,10 +366,15 @@ type c16Pkt struct {
 	seq            uint64
 	sp, sc, dp, dc string
 	data           []byte
+	timeout        *[3]uint64 // timeout height (revision number, revision height) and timestamp; nil = (1, 1000), 0
 }
 
 func (p c16Pkt) String() string {
-	return fmt.Sprintf("%d,%s,%s,%s,%s,%s", p.seq, p.sp, p.sc, p.dp, p.dc, hx(p.data))
+	s := fmt.Sprintf("%d,%s,%s,%s,%s,%s", p.seq, p.sp, p.sc, p.dp, p.dc, hx(p.data))
+	if p.timeout != nil {
+		s += fmt.Sprintf(",%d,%d,%d", p.timeout[0], p.timeout[1], p.timeout[2])
+	}
+	return s
 }
 
 func c16ParsePkt(s string) c16Pkt {
@@ -378,11 +383,61 @@ func c16ParsePkt(s string) c16Pkt {
 	fmt.Sscan(f[0], &p.seq)
 	p.sp, p.sc, p.dp, p.dc = f[1], f[2], f[3], f[4]
 	p.data = unhx(f[5])
+	if len(f) >= 9 {
+		var t [3]uint64
+		fmt.Sscan(f[6], &t[0])
+		fmt.Sscan(f[7], &t[1])
+		fmt.Sscan(f[8], &t[2])
+		p.timeout = &t
+	}
 	return p
 }
 
 func (p c16Pkt) packet() channeltypes.Packet {
+	if p.timeout != nil {
+		return channeltypes.NewPacket(p.data, p.seq, p.sp, p.sc, p.dp, p.dc, clienttypes.NewHeight(p.timeout[0], p.timeout[1]), p.timeout[2])
+	}
 	return channeltypes.NewPacket(p.data, p.seq, p.sp, p.sc, p.dp, p.dc, clienttypes.NewHeight(1, 1000), 0)
+}
+
+// amount classes (for the distribution): the range by the Go integer widths a careless conversion could overflow, and
+// the exact boundary values
+func c16AmtRange(a *big.Int) string {
+	for _, b := range []struct {
+		bits uint
+		name string
+	}{{31, "lt2e31"}, {32, "2e31-2e32"}, {53, "2e32-2e53"}, {63, "2e53-2e63"}, {64, "2e63-2e64"}, {128, "2e64-2e128"}, {255, "2e128-2e255"}} {
+		if a.Cmp(new(big.Int).Lsh(big.NewInt(1), b.bits)) < 0 {
+			return b.name
+		}
+	}
+	return "ge2e255"
+}
+
+var c16Boundaries = func() map[string]string {
+	m := map[string]string{}
+	p2 := func(n uint, d int64) string {
+		return new(big.Int).Add(new(big.Int).Lsh(big.NewInt(1), n), big.NewInt(d)).String()
+	}
+	p10 := func(n int64) string { return new(big.Int).Exp(big.NewInt(10), big.NewInt(n), nil).String() }
+	m["1"] = "1"
+	for _, n := range []uint{31, 32, 53, 63, 64} {
+		m[fmt.Sprintf("2e%d-1", n)] = p2(n, -1)
+		m[fmt.Sprintf("2e%d", n)] = p2(n, 0)
+		m[fmt.Sprintf("2e%d+1", n)] = p2(n, 1)
+	}
+	m["2e128"], m["2e255"], m["2e256-1"], m["2e256-2"] = p2(128, 0), p2(255, 0), p2(256, -1), p2(256, -2)
+	m["1e19"], m["1e30"], m["1e77"] = p10(19), p10(30), p10(77)
+	return m
+}()
+
+func c16BoundaryName(a *big.Int) string {
+	for n, v := range c16Boundaries {
+		if v == a.String() {
+			return n
+		}
+	}
+	return ""
 }
 
 func (w *c16World) fail(r *Rec, sig, what, obs, req string) {
@@ -480,7 +535,10 @@ func (w *c16World) recv(r *Rec, p c16Pkt) (string, string) {
 			r.Count("recv.panic.insane-contract") // outside the guards of the theorems (contract whose balanceOf fails while mint succeeds)
 		} else {
 			r.Count("recv.panic")
-			w.fail(r, "C16:middleware-panic", "IBCMiddleware.OnRecvPacket panics: "+pmsg, "panic", "the wrapped module's acknowledgement")
+			// a panic out of the callback is an outcome of its own: the whole MsgRecvPacket fails (no receipt, no vouchers, the
+			// transfer module's acknowledgement is never committed) - never equal to the bare transfer module's result
+			w.fail(r, "C16:callback-panicked", "IBCMiddleware.OnRecvPacket panicked ("+pmsg+") on a packet for which the bare transfer module returned "+c16AckStr(innerAck)+
+				"; neither the hook nor the middleware recovers, so MsgRecvPacket fails as a whole", "panic", c16AckStr(innerAck))
 		}
 		return line, "panic"
 	}
@@ -674,6 +732,10 @@ func (w *c16World) recv(r *Rec, p c16Pkt) (string, string) {
 	case converted:
 		r.Count("recv.converted")
 		r.Count("recv.converted." + kind)
+		r.Count("recv.converted.amt." + c16AmtRange(amt))
+		if n := c16BoundaryName(amt); n != "" {
+			r.Count("recv.converted.amt.at." + n)
+		}
 		if hadPair && pairBefore.IsNativeERC20() {
 			r.Count("recv.converted.external")
 		}
@@ -682,6 +744,9 @@ func (w *c16World) recv(r *Rec, p c16Pkt) (string, string) {
 	case hadPair:
 		r.Count("recv.conversion-failed")
 		r.Count("recv.conversion-failed." + kind)
+		if amt != nil && amt.Sign() > 0 {
+			r.Count("recv.conversion-failed.amt." + c16AmtRange(amt))
+		}
 		if pairBefore.IsNativeERC20() {
 			r.Count("recv.conversion-failed.external")
 		}
@@ -847,8 +912,8 @@ func (w *c16World) apply(r *Rec, op string) string {
 				if err := w.app.EvmKeeper.SetAccount(w.ctx, addr, statedb.Account{Nonce: 1, Balance: new(big.Int), CodeHash: h}); err != nil {
 					r.t.Fatalf("SetAccount: %v", err)
 				}
-				if kind == "tinyd" { // the module account holds 10^33 tokens (its token escrow) from the start
-					pre := new(big.Int).Exp(big.NewInt(10), big.NewInt(33), nil)
+				if kind == "tinyd" { // the module account holds 2^256-1 tokens (its token escrow) from the start
+					pre := new(big.Int).Sub(new(big.Int).Lsh(big.NewInt(1), 256), big.NewInt(1)) // 2^256-1
 					w.app.EvmKeeper.SetState(w.ctx, addr, common.BytesToHash(aggregatetypes.ModuleAddress.Bytes()), common.BigToHash(pre).Bytes())
 				}
 			}
@@ -983,6 +1048,8 @@ func (w *c16World) run(r *Rec, h []string) {
 
 // ---- generator ---------------------------------------------------------------------------------
 
+func pick64(rng interface{ Intn(int) int }, xs []uint64) uint64 { return xs[rng.Intn(len(xs))] }
+
 func c16Data(denom, amount, sender, receiver string) []byte {
 	return transfertypes.NewFungibleTokenPacketData(denom, amount, sender, receiver).GetBytes()
 }
@@ -1024,6 +1091,17 @@ func TestC16(t *testing.T) {
 		"", " ", "xyz", otherHrp, string(broken), "0x1111111111111111111111111111111111111111", strings.ToUpper(addr(0x22, 20).String())}
 	max256 := new(big.Int).Sub(new(big.Int).Lsh(big.NewInt(1), 256), big.NewInt(1))
 	goodAmt := []string{"1", "7", "1000000", "123456789012345678901234567890"}
+	var boundaryAmt []string
+	for n, v := range c16Boundaries {
+		if n != "2e256-1" {
+			boundaryAmt = append(boundaryAmt, v)
+		}
+	}
+	sort.Strings(boundaryAmt)
+	boundaryAmt = append(boundaryAmt, c16Boundaries["2e63"], c16Boundaries["2e63+1"], c16Boundaries["1e19"], c16Boundaries["2e64-1"],
+		c16Boundaries["2e53+1"], c16Boundaries["2e63-1"], c16Boundaries["2e31"], c16Boundaries["2e32+1"]) // extra weight
+	seqPool := []uint64{1<<31 - 1, 1 << 31, 1 << 32, 1 << 53, 1<<63 - 1, 1 << 63, 1<<64 - 1000}
+	capSupply := new(big.Int).Sub(new(big.Int).Lsh(big.NewInt(1), 256), big.NewInt(2))
 	oddAmt := []string{"0", "-1", "", "abc", "1.5", "0x10", "1_0", " 5", "+3", max256.String(), new(big.Int).Add(max256, big.NewInt(1)).String(),
 		new(big.Int).Lsh(big.NewInt(1), 255).String(), "00012"}
 	kinds := []string{"std", "std", "std", "std", "std", "tiny1", "tiny1", "tinyd", "tinyd", "tinyd", "tiny2", "tiny0", "revert", "nocode"}
@@ -1035,6 +1113,8 @@ func TestC16(t *testing.T) {
 		type regd struct{ dc, base, denom string }
 		registered := []regd{}
 		regDenoms := map[string]bool{}
+		minted := map[string]*big.Int{} // vouchers sent per (channel, denomination) in this history
+		usedSeq := map[string]bool{}
 		var regAs func(dc, base, kind, owner string)
 		regRaw := func(d, kind, owner string) { regAs("", d, kind, owner) } // a denomination no packet of this harness is routed for
 		regAs = func(dc, base, kind, owner string) {
@@ -1231,9 +1311,45 @@ func TestC16(t *testing.T) {
 					}
 				}
 				amount := pick(goodAmt)
-				if rng.Intn(10) == 0 {
+				switch x := rng.Intn(20); {
+				case x < 2:
 					amount = pick(oddAmt)
+				case x < 9:
+					amount = pick(boundaryAmt)
+				case x < 12: // random within a decade
+					k := rng.Intn(77)
+					lo := new(big.Int).Exp(big.NewInt(10), big.NewInt(int64(k)), nil)
+					amount = new(big.Int).Add(lo, new(big.Int).Rand(rng, new(big.Int).Mul(lo, big.NewInt(9)))).String()
+				case x == 12 && minted[p.dc+"|"+denom] == nil:
+					amount = c16Boundaries["2e256-1"] // the whole sdk.Int range: only as the first voucher of its denomination
 				}
+				if a, ok := new(big.Int).SetString(amount, 10); ok && a.Sign() > 0 && a.BitLen() <= 256 {
+					// bank supply is a 256-bit sdk.Int: keep the vouchers minted per denomination in one history below 2^256
+					key := p.dc + "|" + denom
+					if minted[key] == nil {
+						minted[key] = new(big.Int)
+					}
+					if new(big.Int).Add(minted[key], a).Cmp(capSupply) > 0 && amount != c16Boundaries["2e256-1"] {
+						amount = pick(goodAmt)
+						a, _ = new(big.Int).SetString(amount, 10)
+					}
+					minted[key].Add(minted[key], a)
+				}
+				if rng.Intn(5) == 0 { // boundary values of the other numeric fields of the packet: sequence, timeout height / timestamp
+					for try := 0; try < 5; try++ {
+						q := seqPool[rng.Intn(len(seqPool))] + uint64(rng.Intn(900))
+						if !usedSeq[fmt.Sprintf("%s/%d", p.dc, q)] {
+							p.seq = q
+							break
+						}
+					}
+					t := [3]uint64{pick64(rng, []uint64{1, 1, 2, 1 << 32, 1<<64 - 1}), pick64(rng, []uint64{0, 2, 1000, 1 << 31, 1 << 63, 1<<64 - 1}), pick64(rng, []uint64{0, 0, 1 << 63, 1<<64 - 1})}
+					if t[0] == 1 && t[1] < 2 { // the chain is at height 1-1: a timeout height 1-0 / 1-1 has passed
+						t[1] = 1000
+					}
+					p.timeout = &t
+				}
+				usedSeq[fmt.Sprintf("%s/%d", p.dc, p.seq)] = true
 				receiver := pick(goodRecv)
 				if rng.Intn(8) == 0 {
 					receiver = pick(oddRecv)
